@@ -72,7 +72,8 @@ def make_cases(ctx):
             kw["date_formats"] = [fmt] if r < 0.4 else (rng.sample(dec, rng.randint(1, 3)) + [fmt] + (rng.sample(dec, 1) if r > 0.8 else []))
         # settings that must be irrelevant: a REQUIRE_PARTS the string meets, defaults spelled out
         st.update(neighbours.bystanders(rng, {"my": ("month", "year"), "y": ("year",), "full": ("day", "month", "year")}[parts]))
-        cases.append({"parser": parser, "parts": parts, "y": y, "m": m, "d": d, "tm": tm or [0, 0, 0],
+        via = rng.choice(["dict"] * 6 + ["instance", "instance2", "instance2", "cleared"])
+        cases.append({"via": via, "parser": parser, "parts": parts, "y": y, "m": m, "d": d, "tm": tm or [0, 0, 0],
                       "hasTime": tm is not None, "pdom": pd, "pmoy": pm, "ref": list(ref) + [10, 30, 0, 0] if ref else [],
                       "rtap": rtap, "s": s, "kw": kw, "settings": st, "api": "ddp", "probe": parser == "abs"})
 
@@ -116,7 +117,9 @@ def make_cases(ctx):
 def describe(c):
     return {"call": "DateDataParser(%s, settings=%r).get_date_data(%r%s)" % (
         ", ".join("%s=%r" % kv for kv in c["kw"].items() if kv[0] != "date_formats"), c["settings"], c["s"],
-        ", date_formats=%r" % c["kw"]["date_formats"] if "date_formats" in c["kw"] else ""), "parser": c["parser"], "parts": c["parts"]}
+        ", date_formats=%r" % c["kw"]["date_formats"] if "date_formats" in c["kw"] else ""), "parser": c["parser"], "parts": c["parts"],
+        "settings_given_as": {"instance": "dateparser.conf.settings.replace(**settings)", "instance2": "settings.replace(<all but RELATIVE_BASE / TIMEZONE>).replace(<those>)",
+                              "cleared": "a dict emptied by the caller after the parser was built"}.get(c.get("via"), "a dict")}
 
 
 def run(ctx):
